@@ -18,12 +18,12 @@ structure Grows (c c' : Cfg) : Prop where
   linkBA : c'.linkBA = c.linkBA
 
 theorem deliverAll_grows {fp : Hash → Bool} : ∀ (l : List Message) (c : Cfg), c.linkAB = l →
-    Reachable fp c → Grows c (deliverAllAB l c)
+    Good c → Grows c (deliverAllAB l c)
   | [], c, hl, _ => ⟨rfl, fun _ h => h, fun _ h => Or.inl h, fun _ h => h, hl, rfl⟩
   | m :: rest, c, hl, hr => by
-    have inv := Inv.of_reachable fp hr
-    have hr' : Reachable fp (c.recvB m rest) := Reachable.step _ _ hr (Step.recv c m rest hl)
-    have ih := deliverAll_grows rest (c.recvB m rest) rfl hr'
+    have inv := hr.inv
+    have hr' : Good (c.recvB m rest) := hr.step (fp := fp) (Step.recv c m rest hl)
+    have ih := deliverAll_grows (fp := fp) rest (c.recvB m rest) rfl hr'
     have mOk : MsgOk c.docA c.docB m := inv.a.msgs m (by rw [hl]; simp)
     obtain ⟨_, s1, s2, _⟩ := recvDoc_spec c.docB
       (recvFlags { c.stB with inFlight := false } m.flags) m inv.b.wf
@@ -42,10 +42,10 @@ theorem genA_docs (fp : Hash → Bool) (c : Cfg) :
     (c.genA fp).docA = c.docA ∧ (c.genA fp).docB = c.docB ∧ (c.genA fp).linkBA = c.linkBA :=
   ⟨rfl, rfl, rfl⟩
 
-theorem halfRound_grows {fp : Hash → Bool} {c : Cfg} (hr : Reachable fp c) :
+theorem halfRound_grows {fp : Hash → Bool} {c : Cfg} (hr : Good c) :
     Grows c (halfRound fp c) := by
-  have h1 : Reachable fp (c.genA fp) := Reachable.step _ _ hr (Step.gen c)
-  have g := deliverAll_grows (c.genA fp).linkAB (c.genA fp) rfl h1
+  have h1 : Good (c.genA fp) := hr.step (fp := fp) (Step.gen c)
+  have g := deliverAll_grows (fp := fp) (c.genA fp).linkAB (c.genA fp) rfl h1
   exact ⟨g.docA, g.sub, g.from_, g.has, g.linkAB, g.linkBA⟩
 
 /-- the effect of a whole round on the two documents and the links -/
@@ -59,11 +59,11 @@ structure RoundDocs (c c' : Cfg) : Prop where
   linkAB : c'.linkAB = []
   linkBA : c'.linkBA = []
 
-theorem round_docs {fp : Hash → Bool} {c : Cfg} (hr : Reachable fp c) :
+theorem round_docs {fp : Hash → Bool} {c : Cfg} (hr : Good c) :
     RoundDocs c (round fp c) := by
-  have g1 := halfRound_grows hr
-  have hr1 : Reachable fp (halfRound fp c).swap := hr.halfRound.swap
-  have g2 := halfRound_grows hr1
+  have g1 := halfRound_grows (fp := fp) hr
+  have hr1 : Good (halfRound fp c).swap := (hr.halfRound fp).swap
+  have g2 := halfRound_grows (fp := fp) hr1
   show RoundDocs c (halfRound fp (halfRound fp c).swap).swap
   refine ⟨?_, ?_, ?_, ?_, ?_, ?_, ?_, ?_⟩
   · intro x hx
@@ -113,17 +113,17 @@ def SameSet (c : Cfg) : Prop := ∀ x, x ∈ c.docA.applied ↔ x ∈ c.docB.app
 
 theorem SameSet.converged {c : Cfg} (h : SameSet c) : Converged c := ⟨heads_eq_of_same h, h⟩
 
-theorem miss_round_le {fp : Hash → Bool} {c : Cfg} (hr : Reachable fp c) (u : List Hash) :
+theorem miss_round_le {fp : Hash → Bool} {c : Cfg} (hr : Good c) (u : List Hash) :
     miss u (round fp c) ≤ miss u c := by
-  have rd := round_docs hr
+  have rd := round_docs (fp := fp) hr
   unfold miss
   have h1 := lacking_mono (u := u) rd.hasA
   have h2 := lacking_mono (u := u) rd.hasB
   omega
 
 theorem Univ.round {fp : Hash → Bool} {c : Cfg} {u : List Hash} (hu : Univ u c)
-    (hr : Reachable fp c) : Univ u (round fp c) := by
-  have rd := round_docs hr
+    (hr : Good c) : Univ u (round fp c) := by
+  have rd := round_docs (fp := fp) hr
   intro h hh
   rcases hh with hh | hh
   · obtain ⟨x, hx, rfl⟩ := Doc.mem_hashes.mp hh
@@ -135,9 +135,9 @@ theorem Univ.round {fp : Hash → Bool} {c : Cfg} {u : List Hash} (hu : Univ u c
     · exact hu _ (Or.inr (Doc.mem_hashes.mpr ⟨x, h1, rfl⟩))
     · exact hu _ (Or.inl (Doc.mem_hashes.mpr ⟨x, h1, rfl⟩))
 
-theorem SameSet.round {fp : Hash → Bool} {c : Cfg} (hs : SameSet c) (hr : Reachable fp c) :
+theorem SameSet.round {fp : Hash → Bool} {c : Cfg} (hs : SameSet c) (hr : Good c) :
     SameSet (round fp c) := by
-  have rd := round_docs hr
+  have rd := round_docs (fp := fp) hr
   intro x
   constructor
   · intro hx
